@@ -138,3 +138,59 @@ Proof.
   destruct (r_run max r_st0 h) as [rst outs]. cbn [fst snd] in *.
   exists rst, outs. repeat split; assumption.
 Qed.
+
+(* ---- the same with a bound per process start (Model/Queue.v [v_run]): every operation is executed by the translated
+   code under the bound of the process it runs in (the maxQueueSize field of the queue object); process starts and
+   crash cuts are the model's ---- *)
+Definition go_vstep (me : N) (st : vstate) (it : vitem) : option (vstate * option out) :=
+  match it with
+  | VOp o =>
+      match go_uop me (vmax st) (mem (core (vr st))) (nseq (vr st)) o with
+      | Some (m', n', r, ws) =>
+          Some ({| vr := {| core := {| mem := m'; db := apply_ws (db (core (vr st))) ws |}; nseq := n' |};
+                   vmax := vmax st; vload := vload st |}, Some r)
+      | None => None
+      end
+  | _ => Some (v_step st it)
+  end.
+Fixpoint go_vrun (me : N) (st : vstate) (h : list vitem) : option (vstate * list (option out)) :=
+  match h with
+  | [] => Some (st, [])
+  | it :: r =>
+      match go_vstep me st it with
+      | Some (st', o) => match go_vrun me st' r with
+                         | Some (st'', os) => Some (st'', o :: os)
+                         | None => None
+                         end
+      | None => None
+      end
+  end.
+
+Lemma go_vstep_is_v_step : forall me st it, go_vstep me st it = Some (v_step st it).
+Proof.
+  intros me st it. destruct it as [o|m|o n m]; try reflexivity.
+  unfold go_vstep. rewrite go_uop_is_step. unfold v_step, v_plain, r_step, key_item, step.
+  destruct (step_mem (vmax st) (mem (core (vr st))) (key_op (nseq (vr st)) o)) as [[m' r] ws]. reflexivity.
+Qed.
+
+Theorem go_vrun_is_v_run : forall me h st, go_vrun me st h = Some (v_run st h).
+Proof.
+  intros me h. induction h as [|it r IH]; intros st; [reflexivity|].
+  cbn [go_vrun v_run]. rewrite go_vstep_is_v_step.
+  destruct (v_step st it) as [st' o]. rewrite IH.
+  destruct (v_run st' r) as [st'' os]. reflexivity.
+Qed.
+
+(* the exactly-once FIFO across restarts with changing bounds, of histories run by the translated code *)
+Theorem go_vrun_fifo : forall me max0 h,
+  exists st outs, go_vrun me (v_st0 max0) h = Some (st, outs) /\
+    outs = sv_outputs max0 h /\
+    map snd (mem (core (vr st))) = sv_final max0 h /\
+    map snd (db (core (vr st))) = sv_final max0 h.
+Proof.
+  intros me max0 h. rewrite go_vrun_is_v_run.
+  destruct (v_fifo_full max0 h) as [H1 [H2 H3]].
+  unfold v_outputs, v_final in *.
+  destruct (v_run (v_st0 max0) h) as [st outs]. cbn [fst snd] in *.
+  exists st, outs. repeat split; assumption.
+Qed.
